@@ -1,0 +1,103 @@
+//! Verification seams. Compiled only with `--cfg cosmian_cover_crypt_verif`.
+//!
+//! `Mutex` is a thin wrapper around `std::sync::Mutex` that reports every
+//! lock event to a process-wide observer, so that an external scheduler can
+//! explore the interleavings of the critical sections of `Covercrypt`. Without
+//! an observer it behaves exactly like `std::sync::Mutex`.
+
+use std::{
+    ops::{Deref, DerefMut},
+    sync::{LockResult, PoisonError, RwLock},
+};
+
+/// Lock events reported to the observer.
+#[derive(Clone, Copy, Debug, PartialEq, Eq)]
+pub enum LockEvent {
+    /// The calling thread is about to request the lock.
+    BeforeLock,
+    /// The calling thread now holds the lock.
+    Acquired,
+    /// The calling thread has just released the lock.
+    Released,
+}
+
+/// Observer signature: the event and the address of the mutex.
+pub type Observer = fn(LockEvent, usize);
+
+static OBSERVER: RwLock<Option<Observer>> = RwLock::new(None);
+
+/// Installs (or removes) the process-wide lock observer.
+pub fn set_lock_observer(observer: Option<Observer>) {
+    *OBSERVER.write().unwrap_or_else(PoisonError::into_inner) = observer;
+}
+
+fn notify(event: LockEvent, addr: usize) {
+    let observer = *OBSERVER.read().unwrap_or_else(PoisonError::into_inner);
+    if let Some(f) = observer {
+        f(event, addr);
+    }
+}
+
+#[derive(Debug, Default)]
+pub struct Mutex<T>(std::sync::Mutex<T>);
+
+pub struct MutexGuard<'a, T> {
+    inner: Option<std::sync::MutexGuard<'a, T>>,
+    addr: usize,
+}
+
+impl<T> Mutex<T> {
+    pub fn new(t: T) -> Self {
+        Self(std::sync::Mutex::new(t))
+    }
+
+    fn addr(&self) -> usize {
+        std::ptr::addr_of!(self.0) as usize
+    }
+
+    pub fn lock(&self) -> LockResult<MutexGuard<'_, T>> {
+        let addr = self.addr();
+        notify(LockEvent::BeforeLock, addr);
+        match self.0.lock() {
+            Ok(guard) => {
+                notify(LockEvent::Acquired, addr);
+                Ok(MutexGuard {
+                    inner: Some(guard),
+                    addr,
+                })
+            }
+            Err(poisoned) => {
+                notify(LockEvent::Acquired, addr);
+                Err(PoisonError::new(MutexGuard {
+                    inner: Some(poisoned.into_inner()),
+                    addr,
+                }))
+            }
+        }
+    }
+
+    pub fn is_poisoned(&self) -> bool {
+        self.0.is_poisoned()
+    }
+}
+
+impl<T> Deref for MutexGuard<'_, T> {
+    type Target = T;
+
+    fn deref(&self) -> &T {
+        self.inner.as_ref().expect("guard is live")
+    }
+}
+
+impl<T> DerefMut for MutexGuard<'_, T> {
+    fn deref_mut(&mut self) -> &mut T {
+        self.inner.as_mut().expect("guard is live")
+    }
+}
+
+impl<T> Drop for MutexGuard<'_, T> {
+    fn drop(&mut self) {
+        drop(self.inner.take());
+        notify(LockEvent::Released, self.addr);
+    }
+}
